@@ -5,6 +5,8 @@ import (
 	"encoding/json"
 	"fmt"
 	"os"
+	"runtime"
+	"strconv"
 	"strings"
 	"sync"
 	"sync/atomic"
@@ -75,6 +77,25 @@ type CaseFunc func(c *Ctx, caseID string)
 // ChildCases is the child side of RunSharded: case ids arrive on stdin, one per line.
 func ChildCases(c *Ctx, f CaseFunc) {
 	j := OpenJournal()
+	// Optional per-case watchdog (bounded-progress restatement of termination): if one case runs
+	// longer than VERIF_CASE_TIMEOUT seconds, dump every goroutine and exit with status 97.
+	var caseNo atomic.Int64
+	if secs, _ := strconv.Atoi(os.Getenv("VERIF_CASE_TIMEOUT")); secs > 0 {
+		go func() {
+			last, since := int64(-1), time.Now()
+			for {
+				time.Sleep(500 * time.Millisecond)
+				if n := caseNo.Load(); n != last {
+					last, since = n, time.Now()
+				} else if time.Since(since) > time.Duration(secs)*time.Second {
+					buf := make([]byte, 1<<20)
+					n := runtime.Stack(buf, true)
+					fmt.Fprintf(os.Stderr, "CASE-WATCHDOG: case exceeded %d s\n%s\n", secs, buf[:n])
+					os.Exit(97)
+				}
+			}
+		}()
+	}
 	sc := bufio.NewScanner(os.Stdin)
 	sc.Buffer(make([]byte, 1<<20), 1<<26)
 	for sc.Scan() {
@@ -82,6 +103,7 @@ func ChildCases(c *Ctx, f CaseFunc) {
 		if id == "" {
 			continue
 		}
+		caseNo.Add(1)
 		j.Begin(id, id)
 		c.BeginCollect()
 		f(c, id)
